@@ -1,6 +1,6 @@
 (* Properties/C19.v — vertices and transactions survive every transcoding unchanged. *)
-From Coq Require Import List Arith NArith ZArith Lia Bool.
-From Verif Require Import WalletFile Msg Codec CodecP Msgpack CodecFields MsgpackP ProtoWire ProtoWireP.
+From Coq Require Import List Arith NArith ZArith Lia Bool Permutation.
+From Verif Require Import WalletFile Msg Codec CodecP Msgpack CodecFields MsgpackP ProtoWire ProtoWireP ProtoWireOrder.
 Import ListNotations.
 Local Open Scope Z_scope.
 
@@ -77,23 +77,57 @@ Theorem C19_protowire_varint_roundtrip : forall n rest, (n < N64)%N -> dec_varin
 Proof. exact varint_roundtrip. Qed.
 Print Assumptions C19_protowire_varint_roundtrip.
 
-(* ... (2) every wire struct - any field empty or not, sub-messages present or nil, all 2^64 integers, every length below 2^64 -
-   decodes back to exactly itself ... *)
-Theorem C19_protowire_message_roundtrip : forall p, wf_pvtx p -> dec_pvtx (enc_pvtx p) = Some p.
+(* ... (2) every wire struct whose string fields are UTF-8 - any field empty or not, sub-messages present or nil, all 2^64 integers,
+   every length below 2^64 - decodes back to exactly itself ... *)
+Theorem C19_protowire_message_roundtrip : forall p, wf_pvtx p -> strings_valid_pvtx p = true -> dec_pvtx (enc_pvtx p) = Some p.
 Proof. exact pvtx_roundtrip. Qed.
 Print Assumptions C19_protowire_message_roundtrip.
 
-(* ... (3) in particular the wire struct src/gossip builds from ANY vertex a node can hold (the well-formedness of the storage model:
-   fields below 2^32 bytes, 32-byte hashes, uint64 amounts and weight, int64 seconds) - with the negative / wrapped timestamps,
-   nil and empty byte strings and zero amounts that proto3 leaves out of the message ... *)
-Theorem C19_protowire_vertex_roundtrip : forall v, wf_vtx v -> dec_pvtx (enc_pvtx (to_pvtx v)) = Some (to_pvtx v).
+(* ... which is: whatever proto.Marshal hands out, proto.Unmarshal reads back as the same message ... *)
+Theorem C19_protowire_marshal_unmarshal : forall p b, wf_pvtx p -> marshal_pvtx p = Some b -> dec_pvtx b = Some p.
+Proof. exact marshal_unmarshal. Qed.
+Print Assumptions C19_protowire_marshal_unmarshal.
+
+(* ... (3) the known finding as a theorem of the model: a message has NO wire form exactly when one of its string fields (signer,
+   subject, receiver, issuer) is not valid UTF-8 - such a vertex, which the ledger admits and the storage codec keeps, is never
+   gossiped - and bytes that carry such a signer address are refused on the way in ... *)
+Theorem C19_protowire_non_utf8_has_no_wire_form : forall p, strings_valid_pvtx p = false <-> marshal_pvtx p = None.
+Proof. exact marshal_refuses_non_utf8. Qed.
+Print Assumptions C19_protowire_non_utf8_has_no_wire_form.
+Theorem C19_protowire_non_utf8_not_read : forall p, wf_pvtx p -> utf8_valid (pv_signer p) = false -> dec_pvtx (enc_pvtx p) = None.
+Proof. exact unmarshal_refuses_non_utf8. Qed.
+Print Assumptions C19_protowire_non_utf8_not_read.
+
+(* ... (4) in particular the wire struct src/gossip builds from ANY vertex a node can hold (the well-formedness of the storage model:
+   fields below 2^32 bytes, 32-byte hashes, uint64 amounts and weight, int64 seconds) whose text fields are UTF-8 - with the negative /
+   wrapped timestamps, nil and empty byte strings and zero amounts that proto3 leaves out of the message ... *)
+Theorem C19_protowire_vertex_roundtrip : forall v, wf_vtx v -> strings_valid_pvtx (to_pvtx v) = true ->
+  dec_pvtx (enc_pvtx (to_pvtx v)) = Some (to_pvtx v).
 Proof. exact vertex_wire_roundtrip. Qed.
 Print Assumptions C19_protowire_vertex_roundtrip.
 
-(* ... (4) and two different wire structs never share their bytes. *)
-Theorem C19_protowire_encoding_injective : forall v w, wf_pvtx v -> wf_pvtx w -> enc_pvtx v = enc_pvtx w -> v = w.
+(* ... (5) and two different wire structs never share their bytes. *)
+Theorem C19_protowire_encoding_injective : forall v w, wf_pvtx v -> wf_pvtx w -> strings_valid_pvtx v = true -> strings_valid_pvtx w = true ->
+  enc_pvtx v = enc_pvtx w -> v = w.
 Proof. exact pvtx_encoding_injective. Qed.
 Print Assumptions C19_protowire_encoding_injective.
+
+(* ... (6) The order of the records does not matter: ANY permutation of the records proto.Marshal writes for a vertex reads as that
+   vertex (a peer whose library serialises in another order interoperates); the harness feeds the reversed order to proto.Unmarshal. *)
+Theorem C19_protowire_any_record_order : forall v fs', wf_pvtx v -> strings_valid_pvtx v = true -> Permutation (vtx_wire v) fs' ->
+  dec_pvtx (enc_fields fs') = Some v.
+Proof. exact any_record_order. Qed.
+Print Assumptions C19_protowire_any_record_order.
+
+(* ... (7) The messages actually sent - VrxMsgGossip and TrxMsgGossip: the item plus a REPEATED Gossiper field - come back identical:
+   the vertex / transaction, and the gossiper list with the same entries in the same order, none added and none dropped (what C11/C12
+   rely on when they reason about "the list the sender wrote"). *)
+Theorem C19_protowire_vertex_envelope_roundtrip : forall m, wf_pvmsg m -> dec_pvmsg (enc_pvmsg m) = Some m.
+Proof. exact pvmsg_roundtrip. Qed.
+Print Assumptions C19_protowire_vertex_envelope_roundtrip.
+Theorem C19_protowire_transaction_envelope_roundtrip : forall m, wf_ptmsg m -> dec_ptmsg (enc_ptmsg m) = Some m.
+Proof. exact ptmsg_roundtrip. Qed.
+Print Assumptions C19_protowire_transaction_envelope_roundtrip.
 
 (* The decoder is order-insensitive and skips unknown fields (what lets a newer peer add a field), shown on Spice. *)
 Theorem C19_protowire_unknown_field_skipped : forall s k w, wf_pspice s -> wf_field (k, w) -> (3 <= k)%N ->
@@ -105,3 +139,9 @@ Example C19_protowire_nonvacuous :
   enc_pvtx (PVtx [65%N] 300%N [] (Some (PTrx [66%N] [] [] 1%N [] [] [] [] (Some (PSpice 0 0)))) [] [] [] 0%N)
   = [10; 1; 65; 16; 172; 2; 34; 7; 10; 1; 66; 32; 1; 74; 0]%N.
 Proof. vm_compute. reflexivity. Qed.
+
+(* UTF-8 as unicode/utf8.Valid decides it: the euro sign is text; an overlong slash, a surrogate and a lone continuation byte are not *)
+Example C19_utf8_examples :
+  utf8_valid [226; 130; 172]%N = true /\ utf8_valid [192; 175]%N = false /\ utf8_valid [237; 160; 128]%N = false /\ utf8_valid [128]%N = false /\
+  utf8_valid [240; 159; 146; 169; 65]%N = true /\ utf8_valid [244; 144; 128; 128]%N = false.
+Proof. vm_compute. repeat split; reflexivity. Qed.
